@@ -131,6 +131,38 @@ class Interp:
                 return kind[1]
         raise IllFormed(s)
 
+    def note_address(self, name, address):
+        """the SDK's address of the array the program calls `name` (observed, not assumed); two
+        live arrays at one address are recorded: the oracle reports them"""
+        if not hasattr(self, "addr"):
+            self.addr, self.shared_addresses = {}, []
+        address = int(address)
+        for other, ad in self.addr.items():
+            if ad == address and other != name:
+                self.shared_addresses.append([other, name, address])
+        self.addr[name] = address
+
+    def by_name(self, x):
+        """canonical commands with the program's array names in place of the SDK's addresses
+        (only while the addresses are distinct: otherwise the commands are left as emitted)"""
+        addr = getattr(self, "addr", {})
+        inv = {ad: a for a, ad in addr.items()}
+        if len(inv) != len(addr):
+            return x
+
+        def go(y):
+            if isinstance(y, list):
+                if y and y[0] in ("addr", "entry", "slice") and len(y) >= 2 and isinstance(y[1], int):
+                    return [y[0], inv.get(y[1], y[1])] + [go(z) for z in y[2:]]
+                return [go(z) for z in y]
+            return y
+        return go(x)
+
+    def ctrl_by_name(self, ctrl):
+        """controller arrays keyed by the program's array names"""
+        addr = getattr(self, "addr", {})
+        return {a: ctrl[ad] for a, ad in sorted(addr.items()) if ad in ctrl}
+
     # -- statements
     def block(self, stmts):
         for s in stmts:
@@ -163,9 +195,9 @@ class Interp:
             self.q[s[1]].measure(future=self.future(s[3], s[4]), inplace=bool(s[2]))
         elif k == "measnew":
             f = self.q[s[1]].measure(inplace=bool(s[2]))
-            a = f._address
-            if a != s[3]:
-                raise IllFormed(f"array name {s[3]} but the builder allocated address {a}")
+            # the harness's name for the array is s[3]; the address is whatever the SDK handle reports
+            a = s[3]
+            self.note_address(a, f._address)
             self.fut[(a, 0)] = f
             # the Array object of q.measure() is not handed to the host; read it through the future
             self.arr[a] = None
@@ -175,8 +207,7 @@ class Interp:
             self.q[s[1]].free()
         elif k == "newarr":
             arr = conn.new_array(s[2], init_values=None if s[3] is None else list(s[3]))
-            if arr.address != s[1]:
-                raise IllFormed(f"array name {s[1]} but the builder allocated address {arr.address}")
+            self.note_address(s[1], arr.address)
             self.arr[s[1]] = arr
         elif k == "futadd":
             self.future(s[1], s[2]).add(self.src(s[3]), mod=s[4])
@@ -314,7 +345,7 @@ class Interp:
         if proto is None:
             self.protos.append(None)
         else:
-            self.protos.append([canon_cmd(c) for c in proto.commands])
+            self.protos.append(self.by_name([canon_cmd(c) for c in proto.commands]))
             conn.commit_protosubroutine(protosubroutine=proto)
         self.flushes.append(self.snapshot())
 
@@ -331,7 +362,7 @@ class Interp:
             for r, rf in self.reg.items():
                 snap["regs"][r] = _val(rf)
         if self.pipe is not None:
-            snap["ctrl_arrays"] = {a: _plain(v) for a, v in self.pipe.arrays().items()}
+            snap["ctrl_arrays"] = self.ctrl_by_name({a: _plain(v) for a, v in self.pipe.arrays().items()})
             snap["ctrl_M"] = ctrl_m_registers(self.pipe)
             snap["ctrl_R"] = ctrl_m_registers(self.pipe, bank="R")
             snap["reg_names"] = {r: str(rf.reg) for r, rf in self.reg.items()}
@@ -453,12 +484,13 @@ def run_program(repo, prog, script, max_qubits=5, record_active=False, timeout_s
         # register outcomes of ALL blocks are read now, after the last flush
         it.flushes[-1]["regs"] = {r: _val(rf) for r, rf in it.reg.items()}
     obs["flushes"] = it.flushes
+    obs["shared_addresses"] = getattr(it, "shared_addresses", [])
     obs["trace"] = canon_trace(pipe.gate_trace())
     obs["script_left"] = len(pipe.meas_script)
     obs["actives"] = actives
     obs["final_active"] = active_regs(conn)
     try:
-        obs["final_arrays"] = {a: _plain(v) for a, v in pipe.arrays().items()}
+        obs["final_arrays"] = it.ctrl_by_name({a: _plain(v) for a, v in pipe.arrays().items()})
     except Exception:  # noqa
         obs["final_arrays"] = None
     # no conn.close(): it would flush (and execute) whatever a failed run left pending; the next
